@@ -1,97 +1,39 @@
 """C06 - array matching is sound and complete; de-duplication keeps one per value.
 
 spec -> code : ArrayMatchMC.tla enumerates every (a1, a2) pair and every (array, flags)
-               pair of the bounded space over small abstract integers; each case is
-               realised through order-preserving injections (ints near the ends of
-               the 64-bit ranges, floats, byte / unicode strings of mixed length) and
-               run through match / match_multi (+presorted, +scalars) or
-               unique / rem_dup (+values=True).
+               pair of the bounded space over small abstract integers and attaches to
+               each case representations from a covering design (ChooseReps): element
+               type of each argument (i1..i8, u1..u8, f4, f8, byte / unicode strings,
+               bool flags; the two arguments of match also of different types),
+               placement of the values in the types' ranges (both ends of the range,
+               type minimum / maximum, +-inf, +-0.0, the empty string, values the narrower
+               of two types cannot hold), byte order, layout (contiguous, strided,
+               reversed, unaligned, read-only, python list, 0-d / numpy / python scalar).
+               vh/c06_reps.py turns (case, representation) into concrete arguments; each
+               is run through match / match_multi (+presorted) or unique / rem_dup
+               (+values=True).
 code -> spec : what the real code returned (indices as returned, values mapped back
                through the injection) - for those replays and for larger seeded
                arrays - is written as ndjson and judged by ArrayMatchTrace.tla
-               (the property-level clauses of ArrayMatch.tla).
+               (the property-level clauses of ArrayMatch.tla; it also re-checks that
+               every representation used is one the specification admits).
 Python never judges a result; it only maps abstract <-> concrete and records.
 """
-import itertools
+import os
 import random
+from concurrent.futures import ThreadPoolExecutor
 
 import numpy as np
 
+from .. import c06_reps as R
 from .. import tracecheck
 from ..core import MachineryError
 from ..par import pmap
 from ..tlc import cfg
 
 NEEDS_EXT = True     # "import esutil" itself needs the compiled recfile extension (build is cached)
-
-# ---------------------------------------------------------------------------------
-# realisations: order-preserving injections  v in 1..K  ->  concrete value
-# ---------------------------------------------------------------------------------
-def _words(alphabet, maxlen):
-    out = [()]
-    for n in range(1, maxlen + 1):
-        out += list(itertools.product(range(len(alphabet)), repeat=n))
-    out.sort()                      # lexicographic on alphabet positions, a prefix sorts first
-    return out
-
-
-_BALPH = [b"A", b"a", b"\xe9", b"\xff"]          # ascending as unsigned bytes
-_UALPH = ["a", "é", "€", "\U0001d11e"]  # ascending code points (1, 2, 3, 4 utf-8 bytes)
-_W = _words(range(4), 4)                          # 341 words of length 0..4 (the empty string included)
-KMAX = len(_W)
-
-
-def _word_index(v, K):
-    return ((v - 1) * (len(_W) - 1)) // max(K - 1, 1)
-
-
-def _centre(v, K):
-    return (v - 1) - (K - 1) / 2.0
-
-
-REALS = [
-    # name, family, dtype (None: let numpy size the strings), injection(v, K), python scalar usable as argument
-    ("i8_small",   "int",     "i8", lambda v, K: v - 4, True),
-    ("i4_negative", "int",    "i4", lambda v, K: (v - K) * 100003 - 7, True),
-    ("i8_top",     "int",     "i8", lambda v, K: 2 ** 63 - 1 - (K - v), False),
-    ("i8_bottom",  "int",     "i8", lambda v, K: -2 ** 63 + (v - 1), False),
-    ("u8_top",     "uint",    "u8", lambda v, K: 2 ** 64 - 1 - (K - v), False),
-    ("u8_zero",    "uint",    "u8", lambda v, K: (v - 1) * 3, False),
-    ("f8_huge",    "float",   "f8", lambda v, K: _centre(v, K) * (1e300 / K), True),
-    ("f8_frac",    "float",   "f8", lambda v, K: _centre(v, K) * 0.1 - 0.05, True),
-    ("f4",         "float",   "f4", lambda v, K: _centre(v, K) * 1.5e10, False),
-    ("bytes",      "bytes",   None, lambda v, K: b"".join(_BALPH[i] for i in _W[_word_index(v, K)]), True),
-    ("unicode",    "unicode", None, lambda v, K: "".join(_UALPH[i] for i in _W[_word_index(v, K)]), True),
-]
-RNAMES = [r[0] for r in REALS]
-RBY = {r[0]: r for r in REALS}
-# flags ("largest flag") get their own injections
-FLAG_REALS = [("i8", lambda v: v - 2), ("f8", lambda v: (v - 2) * 0.25), ("i8", lambda v: -2 ** 63 + v),
-              ("u8", lambda v: 2 ** 64 - 10 + v), ("i2", lambda v: v * 1000 - 2000)]
-
-
-def realise(vals, rname, K):
-    _, _, dt, inj, _ = RBY[rname]
-    return np.array([inj(v, K) for v in vals], dtype=dt)
-
-
-def inverse_table(rname, K, values):
-    """concrete item -> abstract value, for the abstract values that occur"""
-    arr = realise(sorted(set(values)), rname, K)
-    return {item: v for item, v in zip(arr.tolist(), sorted(set(values)))}
-
-
-def check_injections(K):
-    """machinery self-check: every injection is strictly increasing under numpy's own ordering"""
-    for name in RNAMES:
-        a = realise(list(range(1, K + 1)), name, K)
-        if a.size > 1 and not (np.all(a[:-1] < a[1:]) and np.all(np.argsort(a, kind="stable") == np.arange(a.size))
-                               and np.all(np.searchsorted(a, a) == np.arange(a.size))):
-            raise MachineryError("realisation %s is not order preserving for K=%d" % (name, K))
-    for dt, f in FLAG_REALS:
-        a = np.array([f(v) for v in range(1, 9)], dtype=dt)
-        if not np.all(a[:-1] < a[1:]):
-            raise MachineryError("flag realisation %s is not order preserving" % dt)
+KMAX = R.KMAX
+REP_FIELDS = ("t1", "t2", "p1", "p2", "o1", "o2", "l1", "l2")
 
 
 # ---------------------------------------------------------------------------------
@@ -115,51 +57,64 @@ def _obs(fn, err, i1=(), i2=(), vals=()):
     return {"fn": fn, "err": err, "i1": list(i1), "i2": list(i2), "vals": list(vals)}
 
 
-def observe_match(c, rname, K):
-    """all call variants of one realisation -> list of (observation, variant tag, exception, frame_ok)"""
+def _snap(bufs):
+    return [b.tobytes() for b in bufs]
+
+
+def realise(c, rep, K):
+    """-> the two concrete arguments (+ their buffers, + the value table of the first); raises R.Capacity"""
+    if c["kind"] == "match":
+        f1, f2 = R.value_injections(rep["t1"], rep["t2"], rep["p1"], K, c["a1"], c["a2"])
+        t1 = R.check_increasing(f1, c["a1"] + c["a2"])
+        t2 = R.check_increasing(f2, c["a1"] + c["a2"])
+        if any(t1[v] != t2[v] for v in t1):
+            raise MachineryError("the injections of the two arrays disagree (%s)" % R.rep_tag(rep))
+        items1, items2 = [t1[v] for v in c["a1"]], [t2[v] for v in c["a2"]]
+    else:
+        fa = R.single_injection(rep["t1"], rep["p1"], K["a"])
+        ff = R.single_injection(rep["t2"], rep["p2"], K["f"], zero_by_position=True)
+        t1 = R.check_increasing(lambda v: fa(v, 0), c["a1"])
+        R.check_increasing(lambda v: ff(v, 0), c["f"])
+        items1 = [t1[v] for v in c["a1"]]
+        items2 = [ff(v, j) for j, v in enumerate(c["f"])]
+    x1, b1 = R.build(items1, rep["t1"], rep["o1"], rep["l1"])
+    x2, b2 = R.build(items2, rep["t2"], rep["o2"], rep["l2"])
+    return x1, x2, b1 + b2, t1
+
+
+def observe_match(c, rep, K):
+    """all call variants of one representation -> list of (observation, tag, exception, frame_ok)"""
     import esutil.numpy_util as nu
-    a1 = realise(c["a1"], rname, K)
-    a2 = realise(c["a2"], rname, K)
-    pyscalar = RBY[rname][4]
-    forms1 = [("arr", a1)]
-    forms2 = [("arr", a2)]
-    if a1.size == 1:
-        forms1.append(("npscalar", a1[0]))
-        if pyscalar:
-            forms1.append(("pyscalar", a1[0].item()))
-    if a2.size == 1:
-        forms2.append(("npscalar", a2[0]))
-        if pyscalar:
-            forms2.append(("pyscalar", a2[0].item()))
+    x1, x2, bufs, _ = realise(c, rep, K)
     nondecreasing = all(c["a1"][i] <= c["a1"][i + 1] for i in range(len(c["a1"]) - 1))
+    calls = [("match", nu.match, {}), ("match_multi", nu.match_multi, {})]
+    if nondecreasing:
+        calls += [("match_presorted", nu.match, {"presorted": True}),
+                  ("match_multi_presorted", nu.match_multi, {"presorted": True})]
     out = []
-    b1, b2 = a1.tobytes(), a2.tobytes()
-    for (t1, x1), (t2, x2) in itertools.product(forms1, forms2):
-        calls = [("match", nu.match, {}), ("match_multi", nu.match_multi, {})]
-        if nondecreasing:
-            calls += [("match_presorted", nu.match, {"presorted": True}),
-                      ("match_multi_presorted", nu.match_multi, {"presorted": True})]
-        for fn, f, kw in calls:
-            err, res, exc = _call(f, x1, x2, **kw)
-            if err == "none":
-                try:
-                    i1, i2 = res
-                    o = _obs(fn, err, _ints(i1), _ints(i2))
-                except Exception:  # noqa - not a pair of index arrays: nothing the spec accepts
-                    o = _obs(fn, "none", [-1], [])
-            else:
-                o = _obs(fn, err)
-            out.append((o, "%s/%s,%s" % (rname, t1, t2), exc, a1.tobytes() == b1 and a2.tobytes() == b2))
-    return out
+    before = _snap(bufs)
+    for fn, f, kw in calls:
+        err, res, exc = _call(f, x1, x2, **kw)
+        if err == "none":
+            try:
+                i1, i2 = res
+                o = _obs(fn, err, _ints(i1), _ints(i2))
+            except Exception:  # noqa - not a pair of index arrays: nothing the spec accepts
+                o = _obs(fn, "none", [-1], [])
+        else:
+            o = _obs(fn, err)
+        out.append((o, exc))
+    frame = _snap(bufs) == before
+    return [(o, R.rep_tag(rep), exc, frame) for o, exc in out]
 
 
-def observe_dedup(c, rname, K, fk):
+def observe_dedup(c, rep, K):
     import esutil.numpy_util as nu
-    a = realise(c["a1"], rname, K)
-    fdt, finj = FLAG_REALS[fk % len(FLAG_REALS)]
-    f = np.array([finj(v) for v in c["f"]], dtype=fdt)
-    inv = inverse_table(rname, K, c["a1"])
-    ba, bf = a.tobytes(), f.tobytes()
+    a, f, bufs, table = realise(c, rep, K)
+    inv = {}
+    for v, item in table.items():
+        inv[item] = v
+    before = _snap(bufs)
 
     def back(x):
         return [inv.get(item, 0) for item in np.atleast_1d(x).tolist()]
@@ -180,34 +135,30 @@ def observe_dedup(c, rname, K, fk):
     else:
         o = _obs("rem_dup_values", err)
     out.append((o, exc))
-    frame = a.tobytes() == ba and f.tobytes() == bf
-    return [(o, "%s/flags=%s" % (rname, fdt), exc, frame) for o, exc in out]
-
-
-def reals_for(i, n):
-    """n realisations for case number i, rotating so that every realisation meets every region of the space"""
-    if n >= len(RNAMES):
-        return list(RNAMES)
-    stride = 3 if len(RNAMES) % 3 else 1
-    return [RNAMES[(i + k * stride) % len(RNAMES)] for k in range(n)]
+    frame = _snap(bufs) == before
+    return [(o, R.rep_tag(rep), exc, frame) for o, exc in out]
 
 
 def run_case(args):
-    """-> {"id", "c", "obs": [distinct abstract observations], "who": [[tags] per observation], ...}"""
-    i, c, K, rnames = args
+    """-> {"id", "c", "reps", "obs": [distinct abstract observations], "who": [[rep numbers] per observation], ...}"""
+    i, c, K, reps = args
     raw = []
-    for k, rn in enumerate(rnames):
-        raw += observe_match(c, rn, K) if c["kind"] == "match" else observe_dedup(c, rn, K, i + k)
+    for k, rep in enumerate(reps):
+        try:
+            got = observe_match(c, rep, K) if c["kind"] == "match" else observe_dedup(c, rep, K)
+        except R.Capacity:
+            raise MachineryError("representation %s cannot hold case %s (K=%s)" % (R.rep_tag(rep), c, K))
+        raw += [(o, k, exc, frame) for o, _, exc, frame in got]
     obs, who, excs, index = [], [], [], {}
     frame_bad = 0
-    for o, tag, exc, frame in raw:
+    for o, k, exc, frame in raw:
         key = (o["fn"], o["err"], tuple(o["i1"]), tuple(o["i2"]), tuple(o["vals"]))
         if key not in index:
             index[key] = len(obs)
             obs.append(o); who.append([]); excs.append(exc)
-        who[index[key]].append(tag)
+        who[index[key]].append(k)
         frame_bad += (not frame)
-    return {"id": i, "c": c, "K": K, "reals": list(rnames), "obs": obs, "who": who, "exc": excs,
+    return {"id": i, "c": c, "K": K, "reps": list(reps), "obs": obs, "who": who, "exc": excs,
             "ncalls": len(raw), "frame_bad": frame_bad}
 
 
@@ -226,6 +177,15 @@ def struct_class(c):
 ENTRY = {"match": "match", "match_presorted": "match(presorted=True)", "match_multi": "match_multi",
          "match_multi_presorted": "match_multi(presorted=True)", "unique": "unique", "unique_values": "unique(values=True)",
          "rem_dup": "rem_dup", "rem_dup_values": "rem_dup(values=True)"}
+MACHINERY_CLAUSES = ("bad_record", "bad_representation")
+
+
+def rep_class(c, fn, clause, rep):
+    """the structural feature of a representation that a signature may name: element kinds only"""
+    k1, k2 = R.kind_of(rep["t1"]), R.kind_of(rep["t2"])
+    if c["kind"] == "match":
+        return k1 if k1 == k2 else "%s~%s" % (k1, k2)
+    return "flag:" + k2 if fn.startswith("rem_dup") and clause == "flag_not_largest" else "arr:" + k1
 
 
 def judge(ctx, recs, what, batch=250000):
@@ -233,7 +193,7 @@ def judge(ctx, recs, what, batch=250000):
     for b in range(0, len(recs), batch):
         part = recs[b:b + batch]
         rejects.update(tracecheck.validate(ctx, "ArrayMatchTrace.tla",
-                                           [{"id": r["id"], "c": r["c"], "obs": r["obs"]} for r in part],
+                                           [{"id": r["id"], "c": r["c"], "reps": r["reps"], "obs": r["obs"]} for r in part],
                                            what=what + (" [%d]" % (b // batch + 1) if len(recs) > batch else ""),
                                            shard_size=20000))
     byid = {r["id"]: r for r in recs}
@@ -241,22 +201,36 @@ def judge(ctx, recs, what, batch=250000):
         r = byid[rid]
         groups = {}
         for k, fn, cl in rejects[rid]:
+            if cl in MACHINERY_CLAUSES:
+                raise MachineryError("ArrayMatchTrace rejects the record itself (%s): %s" % (cl, {x: r[x] for x in ("c", "reps")}))
             groups.setdefault((fn, cl), []).append(k - 1)
         for (fn, cl), ks in sorted(groups.items()):
-            # the signature names the realisation family only when the failure is realisation dependent
-            failing = {t.split("/")[0] for k in ks for t in r["who"][k]}
-            called = {t.split("/")[0] for o, w in zip(r["obs"], r["who"]) if o["fn"] == fn for t in w}
-            fam = "" if failing == called else "/" + "+".join(sorted({RBY[n][1] for n in failing}))
-            ctx.violation("%s|%s|%s%s" % (ENTRY.get(fn, fn), cl, struct_class(r["c"]), fam),
-                          "numpy_util.%s result not allowed by ArrayMatch.tla: clause %s" % (ENTRY.get(fn, fn), cl),
-                          {"kind": "lattice", "c": r["c"], "K": r["K"], "reals": r["reals"], "id": r["id"],
-                           "observed": [dict(r["obs"][k], who=r["who"][k][:4], exc=r["exc"][k]) for k in ks][:4]})
+            # the signature names the element kinds only when the failure depends on the representation
+            failing = {j for k in ks for j in r["who"][k]}
+            called = {j for o, w in zip(r["obs"], r["who"]) if o["fn"] == fn for j in w}
+            classes = [""] if failing == called else sorted({"/" + rep_class(r["c"], fn, cl, r["reps"][j]) for j in failing})
+            for cls in classes:
+                mine = [k for k in ks if cls == "" or any("/" + rep_class(r["c"], fn, cl, r["reps"][j]) == cls for j in r["who"][k])]
+                ctx.violation("%s|%s|%s%s" % (ENTRY.get(fn, fn), cl, struct_class(r["c"]), cls),
+                              "numpy_util.%s result not allowed by ArrayMatch.tla: clause %s" % (ENTRY.get(fn, fn), cl),
+                              {"kind": "lattice", "c": r["c"], "K": r["K"], "reps": r["reps"], "id": r["id"],
+                               "observed": [dict(r["obs"][k], who=[R.rep_tag(r["reps"][j]) for j in r["who"][k][:4]],
+                                                 exc=r["exc"][k]) for k in mine][:4]})
     return rejects
 
 
 # ---------------------------------------------------------------------------------
-def seeded_cases(rng, n, max1, max2, start_id):
-    """larger arrays, none / some / all matching, probes below and above a1's range, heavy ties"""
+def _fits(c, rep, K):
+    try:
+        realise(c, rep, K)
+        return True
+    except R.Capacity:
+        return False
+
+
+def seeded_cases(rng, n, max1, max2, start_id, pools):
+    """larger arrays, none / some / all matching, probes below and above a1's range, heavy ties;
+    representations drawn from those the model attached to the exported cases (array layouts)"""
     out = []
     for k in range(n):
         K = rng.choice([8, 20, 60, 150, KMAX])
@@ -284,6 +258,7 @@ def seeded_cases(rng, n, max1, max2, start_id):
             else:
                 a2 = [rng.randrange(1, K + 1) for _ in range(n2)]
             c = {"kind": "match", "a1": a1, "a2": a2, "f": []}
+            KK = K
         else:
             n1 = rng.choice([1, 2, 6, 25, max2 // 2, max2])
             nv = rng.choice([1, 2, 3, 7, K])
@@ -292,32 +267,84 @@ def seeded_cases(rng, n, max1, max2, start_id):
                 j = a.index(max(a)); a[0], a[j] = a[j], a[0]
             nf = rng.choice([1, 2, 3, 8])
             c = {"kind": "dedup", "a1": a, "a2": [], "f": [rng.randrange(1, nf + 1) for _ in range(n1)]}
-        out.append((start_id + k, c, K, [RNAMES[(k + j * 4) % len(RNAMES)] for j in range(3)]))
+            KK = {"a": K, "f": nf}
+        reps, tries = [], 0
+        while len(reps) < 3 and tries < 200:
+            tries += 1
+            rep = rng.choice(pools[c["kind"]])
+            if rep not in reps and _fits(c, rep, KK):
+                reps.append(rep)
+        if not reps:
+            raise MachineryError("no representation fits seeded case %d" % k)
+        out.append((start_id + k, c, KK, reps))
     return out
 
 
 BOUNDS = {
     "quick": dict(
         export=dict(MaxLen1=3, MaxLen2=3, RepLen2=2, A1Vals=set(range(2, 7)), A2Vals=set(range(1, 8)),
-                    MaxLenD=4, DVals=set(range(1, 5)), FVals={1, 2, 3}),
+                    MaxLenD=4, DVals=set(range(1, 5)), FVals={1, 2, 3}, NReps=4),
         mech=dict(MaxLen1=3, MaxLen2=2, RepLen2=1, A1Vals=set(range(2, 6)), A2Vals=set(range(1, 7)),
-                  MaxLenD=4, DVals={1, 2, 3}, FVals={1, 2}),
-        nreal=4, seeded=(400, 40, 60)),
+                  MaxLenD=4, DVals={1, 2, 3}, FVals={1, 2}, NReps=0),
+        shards=dict(match=2, dedup=1), seeded=(400, 40, 60)),
     "thorough": dict(
         export=dict(MaxLen1=4, MaxLen2=4, RepLen2=2, A1Vals=set(range(2, 7)), A2Vals=set(range(1, 8)),
-                    MaxLenD=5, DVals=set(range(1, 5)), FVals={1, 2, 3}),
+                    MaxLenD=5, DVals=set(range(1, 5)), FVals={1, 2, 3}, NReps=8),
         mech=dict(MaxLen1=3, MaxLen2=3, RepLen2=2, A1Vals=set(range(2, 7)), A2Vals=set(range(1, 8)),
-                  MaxLenD=4, DVals=set(range(1, 5)), FVals={1, 2, 3}),
-        nreal=8, seeded=(4000, 150, 250)),
+                  MaxLenD=4, DVals=set(range(1, 5)), FVals={1, 2, 3}, NReps=0),
+        shards=dict(match=8, dedup=4), seeded=(4000, 150, 250)),
 }
 ALL_ACTIONS = ["ChooseA1", "ChooseA2", "ChooseArr", "ChooseFlags", "MSort", "MGuard", "MSearch", "MClamp", "MFilter",
                "UBegin", "UStep", "UEnd", "RBegin", "RStep", "REnd"]
 
 
+class Coverage:
+    """vacuity guard of the covering design: which combinations of representation choices the exported cases met"""
+
+    def __init__(self):
+        self.pairs, self.side, self.lay2, self.flag, self.dval = set(), set(), set(), set(), set()
+
+    def add(self, kind, rep):
+        if kind == "match":
+            self.pairs.add((rep["t1"], rep["t2"], rep["p1"]))
+            self.side.add((1, rep["t1"], rep["l1"])); self.side.add((2, rep["t2"], rep["l2"]))
+            self.side.add((1, rep["t1"], rep["o1"])); self.side.add((2, rep["t2"], rep["o2"]))
+            self.lay2.add((rep["l1"], rep["l2"]))
+        else:
+            self.flag.add((rep["t2"], rep["p2"])); self.flag.add((rep["t2"], rep["l2"])); self.flag.add((rep["t2"], rep["o2"]))
+            self.dval.add((rep["t1"], rep["p1"])); self.dval.add((rep["t1"], rep["l1"])); self.dval.add((rep["t1"], rep["o1"]))
+            self.lay2.add(("d", rep["l1"], rep["l2"]))
+
+    def missing(self, design, kinds):
+        """combinations the specification admits (DESIGN record printed by the model) that no exported case carries"""
+        miss = []
+        has_order = lambda t: t[0] == "U" or (t[0] in "iuf" and t[1] != "1")   # noqa: E731
+        if "match" in kinds:
+            miss += [("pair", tuple(p)) for p in design["pairs"] if tuple(p) not in self.pairs]
+            lays = list(design["layouts"]) + list(design["scalars"])
+            for side in (1, 2):
+                for t in design["values"]:
+                    miss += [("side", side, t, l) for l in lays if (side, t, l) not in self.side]
+                    miss += [("side", side, t, o) for o in (("native", "swapped") if has_order(t) else ("native",))
+                             if (side, t, o) not in self.side]
+            miss += [("layouts", a, b) for a in lays for b in lays if (a, b) not in self.lay2]
+        if "dedup" in kinds:
+            for t in design["flags"]:
+                miss += [("flag", t, x) for x in list(design["places"]) + list(design["layouts"]) if (t, x) not in self.flag]
+                miss += [("flag", t, "swapped") for _ in [0] if has_order(t) and (t, "swapped") not in self.flag]
+            for t in design["values"]:
+                miss += [("arr", t, x) for x in list(design["places"]) + list(design["layouts"]) if (t, x) not in self.dval]
+                miss += [("arr", t, "swapped") for _ in [0] if has_order(t) and (t, "swapped") not in self.dval]
+            miss += [("layouts", "d", a, b) for a in design["layouts"] for b in design["layouts"] if ("d", a, b) not in self.lay2]
+        return miss
+
+
 def run(ctx):
     B = BOUNDS[ctx.tier]
-    check_injections(7); check_injections(4); check_injections(KMAX)
-    fixed = dict(ClampMode="code", SeedSorted=True, DoExport=False)
+    bad = R.selftest()
+    if bad:
+        raise MachineryError("placements not order preserving under numpy's ordering: %s" % bad[:5])
+    fixed = dict(ClampMode="code", SeedSorted=True, DoExport=False, ShardCount=1, ShardIndex=0)
     # 1. design level: the implementation-shaped mechanisms refine the property on every case of the space
     ctx.tlc("ArrayMatchMC.tla", what="mechanisms refine property (exhaustive)",
             cfg_text=cfg(constants=dict(B["mech"], **fixed),
@@ -331,10 +358,13 @@ def run(ctx):
                     workers=4, allow_violation=True, coverage=False)
         if "MechRefines" not in r.violated:
             raise MachineryError("self-test failed: MechRefines not violated by the deviating mechanism (%s)" % what)
-    # 2. export every case (spec -> code), replay it, judge the recorded observations (code -> spec);
-    #    two exports (match pairs / de-duplication pairs) processed in chunks to bound memory
-    K = {"match": max(B["export"]["A2Vals"]), "dedup": max(B["export"]["DVals"])}
+    # 2. export every case with its representations (spec -> code), replay it, judge the recorded observations
+    #    (code -> spec); two exports (match pairs / de-duplication pairs, run side by side) processed in chunks
+    K = {"match": max(B["export"]["A2Vals"]), "dedup": {"a": max(B["export"]["DVals"]), "f": max(B["export"]["FVals"])}}
     state = dict(nid=0, ncalls=0, frame_bad=0, probe=None, dprobe=None, exported=0)
+    cover = Coverage()
+    pending = []
+    pools = {"match": {}, "dedup": {}}
 
     def process(jobs, what):
         for b0 in range(0, len(jobs), 200000):
@@ -345,7 +375,7 @@ def run(ctx):
                 state["frame_bad"] += r["frame_bad"]
             ctx.evaluations += sum(r["ncalls"] - 1 for r in recs)
             for r in recs[:: max(1, len(recs) // 3)][:3]:
-                ctx.sample({"case": r["c"], "realisations": r["reals"], "observed": r["obs"][:3]}, cap=8)
+                ctx.sample({"case": r["c"], "representations": [R.rep_tag(x) for x in r["reps"]], "observed": r["obs"][:3]}, cap=8)
             if state["probe"] is None:
                 state["probe"] = next((r for r in recs if r["c"]["kind"] == "match" and r["obs"][0]["err"] == "none"
                                        and len(r["obs"][0]["i2"]) >= 2), None)
@@ -354,23 +384,52 @@ def run(ctx):
                                         and r["c"]["a1"][0] == min(r["c"]["a1"])), None)
             judge(ctx, recs, what)
 
-    for kind, off in (("match", dict(MaxLenD=0)), ("dedup", dict(MaxLen1=0))):
-        r2 = ctx.tlc("ArrayMatchMC.tla", what="export %s cases" % kind,
-                     cfg_text=cfg(constants=dict(B["export"], **dict(fixed, DoExport=True, **off)), next_="NextExport",
-                                  constraints=["Export"]), workers=1, coverage=False, timeout=3000)
+    def export(task):
+        kind, shard, nshards = task
+        off = dict(MaxLenD=0) if kind == "match" else dict(MaxLen1=0)
+        r2 = ctx.tlc("ArrayMatchMC.tla", what="export %s cases with representations [part %d/%d]" % (kind, shard + 1, nshards),
+                     cfg_text=cfg(constants=dict(B["export"], **dict(fixed, DoExport=True, ShardCount=nshards, ShardIndex=shard, **off)),
+                                  next_="NextExport", invariants=["RepDesignOK"], constraints=["Export"]),
+                     workers=1, coverage=False, timeout=3000)
         cases = r2.records.get("CASE", [])
-        if not cases or r2.garbled or any(c["kind"] != kind for c in cases):
+        design = (r2.records.get("DESIGN") or [None])[0]
+        if not cases or r2.garbled or design is None or any(c["kind"] != kind or len(c["reps"]) < B["export"]["NReps"] for c in cases):
             raise MachineryError("export of %s cases failed (%d cases, %d garbled)" % (kind, len(cases), r2.garbled))
-        jobs = [(state["nid"] + i, c, K[kind], reals_for(i, B["nreal"])) for i, c in enumerate(cases, 1)]
-        state["nid"] += len(jobs)
-        state["exported"] += len(jobs)
-        del cases, r2
-        ctx.log("replaying %d exported %s cases x %d realisations" % (len(jobs), kind, B["nreal"]))
+        return cases, design
+
+    nsh = B["shards"]
+    tasks = [(kind, i, nsh[kind]) for kind in ("match", "dedup") for i in range(nsh[kind])]
+    design, intern = None, {}
+    with ThreadPoolExecutor(max(1, min(6, int(os.environ.get("VH_MAX_WORKERS", "16"))))) as ex:
+        futs = [ex.submit(export, t) for t in tasks]
+        for (kind, shard, _), fut in zip(tasks, futs):
+            cases, design = fut.result()
+            jobs = []
+            for i, c in enumerate(cases, 1):
+                reps = [intern.setdefault(tuple(rep[f] for f in REP_FIELDS), rep) for rep in c.pop("reps")]
+                for rep in reps:
+                    cover.add(kind, rep)
+                    if rep["l1"] not in R.SCALAR_LAYOUTS and rep["l2"] not in R.SCALAR_LAYOUTS and rep["t2"] != "b1":
+                        pools[kind][tuple(rep[f] for f in REP_FIELDS)] = rep
+                jobs.append((state["nid"] + i, c, K[kind], reps))
+            state["nid"] += len(jobs)
+            state["exported"] += len(jobs)
+            del cases
+            pending.append((kind, shard, jobs))
+    for kind in ("match", "dedup"):
+        miss = cover.missing(design, [kind])
+        if miss:
+            raise MachineryError("the covering design misses %d admitted combinations, e.g. %s" % (len(miss), miss[:6]))
+    for kind in ("match", "dedup"):
+        jobs = [j for k, _, js in pending if k == kind for j in js]
+        ctx.log("replaying %d exported %s cases x %d representations" % (len(jobs), kind, B["export"]["NReps"]))
         process(jobs, "judge replayed %s cases (ArrayMatchTrace)" % kind)
         del jobs
+    del pending[:]
     # 3. larger seeded cases, code -> spec
     ns, max1, max2 = B["seeded"]
-    process(seeded_cases(random.Random(ctx.seed), ns, max1, max2, state["nid"] + 1), "judge seeded larger cases (ArrayMatchTrace)")
+    pools = {k: [v[key] for key in sorted(v)] for k, v in pools.items()}
+    process(seeded_cases(random.Random(ctx.seed), ns, max1, max2, state["nid"] + 1, pools), "judge seeded larger cases (ArrayMatchTrace)")
     # 4. binding self-test: corrupted observations must be rejected, the untouched ones accepted
     probe, dprobe = state["probe"], state["dprobe"]
     if probe is None or dprobe is None:
@@ -379,41 +438,48 @@ def run(ctx):
     bad2 = dict(probe["obs"][0]); bad2["i2"] = bad2["i2"][:-1]; bad2["i1"] = bad2["i1"][:-1]
     good3 = next(o for o in dprobe["obs"] if o["fn"] == "rem_dup")
     bad3 = dict(good3); bad3["i1"] = bad3["i1"] + [bad3["i1"][0]]
+    badrep = dict(dprobe["reps"][0], l1="list")               # python lists are not in the de-duplication quantifier
     saved = ctx.traces
     rej = tracecheck.validate(ctx, "ArrayMatchTrace.tla",
-                              [{"id": 1, "c": probe["c"], "obs": [bad1]}, {"id": 2, "c": probe["c"], "obs": [probe["obs"][0]]},
-                               {"id": 3, "c": probe["c"], "obs": [bad2]}, {"id": 4, "c": dprobe["c"], "obs": [bad3]},
-                               {"id": 5, "c": dprobe["c"], "obs": [good3]}],
+                              [{"id": 1, "c": probe["c"], "reps": probe["reps"], "obs": [bad1]},
+                               {"id": 2, "c": probe["c"], "reps": probe["reps"], "obs": [probe["obs"][0]]},
+                               {"id": 3, "c": probe["c"], "reps": probe["reps"], "obs": [bad2]},
+                               {"id": 4, "c": dprobe["c"], "reps": dprobe["reps"], "obs": [bad3]},
+                               {"id": 5, "c": dprobe["c"], "reps": dprobe["reps"], "obs": [good3]},
+                               {"id": 6, "c": dprobe["c"], "reps": [badrep], "obs": [good3]}],
                               what="self-test: corrupted records rejected", workers=1)
     ctx.traces = saved
     want = {1: [[1, "match", "not_ordered_by_second_array"]], 3: [[1, "match", "matching_element_missing"]],
             4: [[1, "rem_dup", "not_one_index_per_value"]]}
     # (records 2 and 5 are the untouched observations: rejected only if the real code is wrong there)
-    if any(rej.get(k) != v for k, v in want.items()):
+    if any(rej.get(k) != v for k, v in want.items()) or not any(cl == "bad_representation" for _, _, cl in rej.get(6, [])):
         raise MachineryError("binding self-test failed: %s" % rej)
     frame_bad, ncalls = state["frame_bad"], state["ncalls"]
     E = B["export"]
     ctx.rule = ("every first array of length 1..%d over %d values (repeats included: rejected) x every second array of length "
                 "1..%d over %d values extending below and above (length 1..%d when a1 has repeats); every array of length 1..%d "
-                "over %d values x every flag array over %d values (all exported from ArrayMatchMC.tla); each case realised in %d of "
-                "%d order-preserving injections (%s) and called as match / match_multi (+presorted when a1 is sorted, +numpy and "
-                "python scalars for length 1) or unique / rem_dup (+values=True); plus %d seeded cases up to %d x %d; a case is "
-                "distinct by its abstract record and non-trivial always" %
+                "over %d values x every flag array over %d values (all exported from ArrayMatchMC.tla); each case in %d "
+                "representations of a covering design enumerated by the model (element type of each argument - %d admitted "
+                "(type, type, placement) combinations for match, %d flag types x 4 placements - x byte order x layout / "
+                "container form; every admitted combination of two of these choices is met) and called as match / match_multi "
+                "(+presorted when a1 is sorted) or unique / rem_dup (+values=True); plus %d seeded cases up to %d x %d; a case "
+                "is distinct by its abstract record and non-trivial always" %
                 (E["MaxLen1"], len(E["A1Vals"]), E["MaxLen2"], len(E["A2Vals"]), E["RepLen2"], E["MaxLenD"], len(E["DVals"]),
-                 len(E["FVals"]), B["nreal"], len(RNAMES), ", ".join(RNAMES), ns, max1, max2))
+                 len(E["FVals"]), E["NReps"], len(design["pairs"]), len(design["flags"]), ns, max1, max2))
     ctx.exhaustive = True
     ctx.note(bounds={t: {k: sorted(v) if isinstance(v, set) else v for k, v in B[t].items()} for t in ("export", "mech")},
-             exported_cases=state["exported"], real_calls=ncalls, realisations=RNAMES,
+             exported_cases=state["exported"], real_calls=ncalls,
+             representation_choices={k: sorted(v) if k != "pairs" else len(v) for k, v in design.items()},
              arguments_modified_by_calls=frame_bad)
-    ctx.assumptions = ["abstract values are realised by strictly increasing injections (checked against numpy's own ordering at start): "
-                       "match/unique/rem_dup depend on order and equality only",
-                       "mixed signed/unsigned 64-bit pairs, NaN and empty arrays are outside the quantifier",
-                       "a2 is realised with the same dtype as a1 (strings: same kind, possibly different width)"]
+    ctx.assumptions = ["abstract values are realised by strictly increasing injections (checked for every case on the exact values and "
+                       "against numpy's own ordering at start): match/unique/rem_dup depend on order and equality only",
+                       "64-bit unsigned with signed integers (numpy compares them through float64), byte with unicode strings, "
+                       "large integers with floats, NaN and empty arrays are outside the quantifier",
+                       "python lists and scalars are arguments of match only; the de-duplication helpers are given 1-d arrays"]
 
 
 def replay(ctx, case):
-    check_injections(max(case.get("K", 7), 2))
-    rec = run_case((1, case["c"], case["K"], case["reals"]))
+    rec = run_case((1, case["c"], case["K"], case["reps"]))
     for o, w, e in zip(rec["obs"], rec["who"], rec["exc"]):
-        print("replay observed:", o, "by", w[:3], e)
+        print("replay observed:", o, "by", [R.rep_tag(case["reps"][j]) for j in w[:3]], e)
     judge(ctx, [rec], "replay")
